@@ -431,6 +431,16 @@ func (ma *ModuleAnalyzer) resolveAbsoluteImport(imp *ImportInfo) string {
 		return ""
 	}
 
+	// A project directory without __init__.py is a namespace package (PEP 420), not a
+	// third-party module: "from nsdir import mod" depends on the project module nsdir.mod
+	for _, pathEntry := range ma.pythonPath {
+		modulePath := filepath.Join(pathEntry, strings.ReplaceAll(moduleName, ".", string(filepath.Separator)))
+		if ma.dirExists(modulePath) {
+			ma.resolvedModules[moduleName] = moduleName
+			return moduleName
+		}
+	}
+
 	if ma.includeThirdParty {
 		ma.resolvedModules[moduleName] = moduleName
 		return moduleName
@@ -708,6 +718,12 @@ func (ma *ModuleAnalyzer) isValidPythonFile(filePath string) bool {
 func (ma *ModuleAnalyzer) fileExists(filePath string) bool {
 	_, err := os.Stat(filePath)
 	return !os.IsNotExist(err)
+}
+
+// dirExists checks if a directory exists
+func (ma *ModuleAnalyzer) dirExists(dirPath string) bool {
+	info, err := os.Stat(dirPath)
+	return err == nil && info.IsDir()
 }
 
 // matchesIncludePatterns checks if path matches any include pattern
